@@ -102,6 +102,33 @@ def build(backend, tier):
     add("pos:sum", f"ds.Select(lambda e: {S}.Select(lambda j: inj(j.eta(), j.pt())).Sum())", md, env)
     add("pos:event-level", f"ds.Select(lambda e: one({S}.Count()))", md, env)
     add("pos:nested-lambda", f"ds.Select(lambda e: {S}.Select(lambda j: j.parts().Select(lambda p: inj(p.pt(), j.eta()))))", md, env)
+    # ---- arguments that leave the insertion point deeper than the call site (First / index / aggregates), result used outside
+    B = f"e.{a.secondary}('B')"
+    deep = {
+        "first-args-event": f"ds.Select(lambda e: inj({S}.First().eta(), {S}.First().pt()))",
+        "first-args-tuple": f"ds.Select(lambda e: (inj({S}.First().eta(), {S}.First().pt()), {S}.Count()))",
+        "first-args-two-collections": f"ds.Select(lambda e: inj({S}.First().eta(), {B}.First().pt()))",
+        "first-arg-one": f"ds.Select(lambda e: one({S}.First().pt()))",
+        "first-arg-one-dict": f"ds.Select(lambda e: {{'n': {S}.Count(), 'v': one({S}.First().pt())}})",
+        "index-arg": f"ds.Select(lambda e: one({S}[0].pt()))",
+        "where-first-arg": f"ds.Select(lambda e: one({S}.Where(lambda j: j.pt() > 1).First().pt()))",
+        "aggregate-args": f"ds.Select(lambda e: inj({S}.Count(), {B}.Count()))",
+        "sum-arg": f"ds.Select(lambda e: one({S}.Select(lambda j: j.pt()).Sum()))",
+        "first-arg-in-event-where": f"ds.Where(lambda e: one({S}.First().pt()) > 100).Select(lambda e: {S}.Count())",
+        "first-arg-in-arith": f"ds.Select(lambda e: one({S}.First().pt()) * 2 + 1)",
+        "first-arg-nested-call": f"ds.Select(lambda e: one(one({S}.First().pt())))",
+        "obj-first-arg": per.format("inj(j.parts().First().pt(), j.eta())"),
+        "obj-first-arg-tags": per.format("one(j.tags().First())"),
+        "obj-first-arg-tuple": per.format("(one(j.tags().First()), j.pt())"),
+        "obj-count-arg": per.format("inj(j.tags().Count(), j.parts().Count())"),
+        "vector-first-arg": f"ds.Select(lambda e: {S}.Select(lambda j: one(j.tags().First())))",
+        "method-first-arg": None,
+    }
+    for k, q in deep.items():
+        if q is not None:
+            add(f"deep:{k}", q, md, env)
+    add("deep:builtin-deltar-first-args", f"ds.Select(lambda e: DeltaR({S}.First().eta(), {S}.First().phi(), {B}.First().eta(), {B}.First().phi()))", [], {"DeltaR": DeltaR})
+    add("deep:builtin-deltar-first-args-tuple", f"ds.Select(lambda e: ({S}.Count(), DeltaR({S}.First().eta(), {S}.First().phi(), 0.5, 0.25)))", [], {"DeltaR": DeltaR})
     # ---- 1- and 3-parameter functions, result types
     for p in PARAMS:
         add(f"fn1:{p}", per.format(f"f1(j.eta())"), [spec("f1", [p], [f"double result = {p} * {p} + 1;"])], {"f1": lambda v: v * v + 1})
